@@ -32,7 +32,9 @@ Act1(m)  == << Op("Sgate", <<Q(4, 3), A0>>, <<m>>), Op("Sgate", <<Q(4, 3), am345
 Act2(pr) == << Op("S2gate", <<Q(4, 3), a345>>, pr) >>
 PassivePool == CatP(Pas1, ModesS, 1) \o CatP(Pas2, PairsS, 1)
 ActivePool  == PassivePool \o CatP(Act1, ModesS, 1) \o CatP(Act2, PairsS, 1)
-Pool == IF Kind = "unitary" THEN PassivePool ELSE ActivePool
+\* permutation-like unitaries: adjacent swaps (beamsplitters at pi/2) with a few phases -> cyclic shifts, unit-vector columns
+PermPool == [i \in 1 .. NMd - 1 |-> Op("BSgate", <<APi2, A0>>, <<i - 1, i>>)] \o << Op("Rgate", <<a345>>, <<0>>), Op("Rgate", <<APi2>>, <<NMd - 1>>) >>
+Pool == IF Kind = "unitary" THEN PassivePool ELSE IF Kind = "perm" THEN PermPool ELSE ActivePool
 Init == /\ \E n \in 0 .. Len0 : \E f \in [1 .. n -> 1 .. Len(Pool)] : recipe = [i \in 1 .. n |-> Pool[f[i]]]
         /\ noise \in (IF Kind = "cov" THEN 0 .. 2 ELSE {0})
 Next == UNCHANGED <<recipe, noise>>
@@ -59,12 +61,12 @@ Noise    == [i \in 1 .. 2 * NMd |-> [j \in 1 .. 2 * NMd |->
 VNet     == MatMul(MatMul(SNet, Noise), Transpose(SNet))
 RDisp    == [i \in 1 .. 2 * NMd |-> IF Len(recipe) % 2 = 0 THEN Zero ELSE Q((i % 3) - 1, 2)]
 SympOK   == IsSymplectic(SNet)
-UnitaryOK == Kind = "unitary" => (SNet = FromUC(UNet))
+UnitaryOK == Kind \in {"unitary", "perm"} => (SNet = FromUC(UNet))
 CovOK    == IsSymmetric(VNet) /\ RLe(One, Det(VNet))
 ProbeSt  == ProbeState(NMd)
-Expected == CASE Kind = "unitary"    -> ApplySymp(ProbeSt, ModesS, SNet)
+Expected == CASE Kind \in {"unitary", "perm"} -> ApplySymp(ProbeSt, ModesS, SNet)
               [] Kind = "symplectic" -> ApplySymp(ProbeSt, ModesS, SNet)
               [] Kind = "cov"        -> [modes |-> ModesS, mu |-> RDisp, V |-> VNet]
-EmitInv == EMIT => PrintT(ToJson([kind |-> Kind, n |-> NMd, noise |-> noise, recipe |-> recipe, S |-> SNet, U |-> UNet, V |-> VNet, r |-> RDisp,
+EmitInv == EMIT => PrintT(ToJson([kind |-> IF Kind = "perm" THEN "unitary" ELSE Kind, n |-> NMd, noise |-> noise, recipe |-> recipe, S |-> SNet, U |-> UNet, V |-> VNet, r |-> RDisp,
                                    prefix |-> ProbeOps(NMd), st |-> Expected]))
 =============================================================================
